@@ -234,6 +234,12 @@ Theorem C11_unbounded_union_assoc_partial : forall s a b c, uwf a -> uwf b -> uw
 Proof. exact uunion_assoc_cells. Qed.
 Print Assumptions C11_unbounded_union_assoc_partial.
 
+(* ... and exactly associative when no bounded axis of an operand reaches the sheet's last column / row *)
+Theorem C11_unbounded_union_assoc_exact : forall s a b c, uwf a -> uwf b -> uwf c -> inner a -> inner b -> inner c ->
+  bind (op_union (VA (unorm s a)) (VA (unorm s b))) (fun x => op_union x (VA (unorm s c)))
+  = bind (op_union (VA (unorm s b)) (VA (unorm s c))) (fun x => op_union (VA (unorm s a)) x).
+Proof. exact uunion_assoc_exact. Qed.
+Print Assumptions C11_unbounded_union_assoc_exact.
 (* the height x width of an extended rectangle is the size of its block of clipped cells *)
 Theorem C11_unbounded_size : forall s r c row, uwf r ->
   uinside r c row <-> (Z.max 1 (x1 r) <= c < Z.max 1 (x1 r) + width (unorm s r)
